@@ -158,6 +158,24 @@ Accepts(t, c, v) ==
     [] t = "ClassSelector" -> IF c.isi THEN v.k = "inst" /\ ClsOK(v.c, c.cls) ELSE v.k = "class" /\ ClsOK(v.c, c.cls)
     [] t = "Color" -> v.k = "str" /\ (IsHex(v.s) \/ (c.named /\ IsNamed(v.s)))
 
+\* "the constraints in force at that moment": the attributes of the declared Parameter are then changed in place to
+\* Alt(t, c), and every candidate is judged again under the new constraints
+Flip(c) == [c EXCEPT !.an = ~c.an,
+                     !.il = IF c.lo = NoB THEN TRUE ELSE ~c.il, !.ih = IF c.hi = NoB THEN TRUE ELSE ~c.ih]
+Alt(t, c) ==
+  CASE t \in {"Number", "Integer"} -> IF c.lo = NoB /\ c.hi = NoB THEN [c EXCEPT !.lo = 2, !.il = FALSE, !.an = ~c.an] ELSE Flip(c)
+    [] t \in {"Date", "CalendarDate", "DateRange", "CalendarDateRange"} ->
+          IF c.lo = NoB /\ c.hi = NoB THEN [c EXCEPT !.lo = 4, !.il = FALSE, !.an = ~c.an] ELSE Flip(c)
+    [] t = "Range" -> IF c.lo = NoB /\ c.hi = NoB THEN [c EXCEPT !.lo = 0, !.il = FALSE, !.an = ~c.an] ELSE Flip(c)
+    [] t \in {"String", "Bytes"} -> [c EXCEPT !.rx = ~c.rx, !.an = ~c.an]
+    [] t \in {"Tuple", "NumericTuple"} -> [c EXCEPT !.len = IF c.len = 2 THEN 3 ELSE 2, !.an = ~c.an]
+    [] t = "List" -> [c EXCEPT !.lo = IF c.lo = NoB THEN 1 ELSE NoB, !.hi = IF c.hi = NoB THEN 2 ELSE NoB,
+                               !.it = CASE c.it = "none" -> "int" [] c.it = "int" -> "str" [] c.it = "str" -> "none"]
+    [] t = "HookList" -> [c EXCEPT !.lo = IF c.lo = NoB THEN 1 ELSE NoB, !.hi = IF c.hi = NoB THEN 2 ELSE NoB]
+    [] t \in {"Selector", "ListSelector"} -> [c EXCEPT !.objs = IF c.objs = {"a"} THEN {"a", "b"} ELSE {"a"}, !.an = ~c.an]
+    [] t = "ClassSelector" -> [c EXCEPT !.cls = IF c.cls = "A" THEN "AorOther" ELSE "A", !.an = ~c.an]
+    [] t = "Color" -> [c EXCEPT !.named = ~c.named, !.an = ~c.an]
+    [] OTHER -> [c EXCEPT !.an = ~c.an]
 \* ---- the state machine -----------------------------------------------------------------
 VARIABLES t, c, stored, nops, hist
 vars == <<t, c, stored, nops, hist>>
@@ -190,7 +208,8 @@ NaNOutsideRange == (t = "Range" /\ (c.lo # NoB \/ c.hi # NoB)) => ~Accepts(t, c,
 NoneIffAllowed == (t \notin {"Parameter", "Selector"}) => (Accepts(t, c, None) <=> c.an)
 
 \* one record per (type, configuration): the verdict for every candidate
-Table == [t |-> t, c |-> c, cases |-> {[v |-> v, acc |-> Accepts(t, c, v)] : v \in Cands(t)}]
+Table == [t |-> t, c |-> c, cases |-> {[v |-> v, acc |-> Accepts(t, c, v)] : v \in Cands(t)},
+          alt |-> [c |-> Alt(t, c), cases |-> {[v |-> v, acc |-> Accepts(t, Alt(t, c), v)] : v \in Cands(t)}]]
 EmitTable == (RecordHist /\ nops = 0 /\ stored = CHOOSE v \in {x \in Cands(t) : Accepts(t, c, x)} : TRUE)
                 => PrintT(<<"BEHAVIOUR", ToJson(Table)>>)
 =============================================================================
